@@ -1,6 +1,8 @@
 // C03 — well-formed package databases are reported completely and exactly.
 //
-// Bounded-exhaustive exploration. For each of 14 format variants (dpkg status, apk
+// Bounded-exhaustive exploration. For each of 16 format variants (requirements.txt and go.mod
+// have a second variant each that enumerates discarded-line classes between records and
+// sequences of replace directives; dpkg status, apk
 // installed, requirements.txt, go.mod, Cargo.lock, package-lock.json v1/v2/v3,
 // composer.lock, Gemfile.lock, gradle.lockfile, poetry.lock, Pipfile.lock,
 // packages.lock.json) a generator (gen_<format>.go) takes an ordered tuple of distinct
@@ -12,7 +14,8 @@
 // The full product
 //
 //	every ordered n-tuple of distinct pool entries, n = 0..2 (quick) / 0..4 (thorough; 0..3 for the
-//	formats with the largest layout products: dpkg, requirements, gomod, cargolock, poetrylock)
+//	formats with the largest layout products: dpkg, requirements (both variants), gomod (both
+//	variants), cargolock, poetrylock)
 //	x every value combination of the format's layout dimensions
 //
 // is enumerated, each file is handed to the real extractor's Extract(), and the
@@ -35,8 +38,9 @@
 //   - requirements.txt: only `==` pins (what a frozen requirements file lists); range
 //     operators, `name @ url`, env-vars, `-r` includes that add packages: never generated.
 //     The `-r` target exists and holds only a comment.
-//   - go.mod: `go` < 1.17 (go.sum merging), local-path replacements, same module path
-//     required twice: never generated.
+//   - go.mod: `go` < 1.17 (go.sum merging), same module path required twice, two effective
+//     replace directives for one module version: never generated. A local-path replacement is
+//     expected as (path, "") as documented by gomod_test.go "replacements_ local".
 //   - Gemfile.lock: the same gem for two platforms: never generated. One platform-suffixed
 //     spec `nokogiri (1.13.3-x86_64-linux)` is generated with ground truth version 1.13.3,
 //     as documented by gemfilelock_test.go:420.
@@ -610,7 +614,7 @@ func runTask(r *ev.Run, t task) {
 
 func allFormats() []*format {
 	return []*format{
-		fmtDpkg(), fmtApk(), fmtRequirements(), fmtGomod(), fmtCargo(),
+		fmtDpkg(), fmtApk(), fmtRequirements(), fmtRequirementsSkip(), fmtGomod(), fmtGomodReplace(), fmtCargo(),
 		fmtPackageLock(1), fmtPackageLock(2), fmtPackageLock(3),
 		fmtComposer(), fmtGemfile(), fmtGradle(), fmtPoetry(), fmtPipfile(), fmtPackagesLock(),
 	}
